@@ -472,10 +472,11 @@ func (cl *cluster) apply(ev string) {
 		for _, b := range before.Backends {
 			cl.startCleaner(nodeOf(b.Address))
 		}
-	case "Tick", "TickF":
+	case "Tick", "TickF", "TickK":
 		i := atoi(f[1])
 		cl.nTicks++
-		if f[0] == "TickF" {
+		cl.killFold = f[0] == "TickK" // the sfold child of this iteration dies from a signal
+		if f[0] == "TickF" || f[0] == "TickK" {
 			cl.nFaults++
 		}
 		rn := cl.nodes[i].(*RealNode)
@@ -491,6 +492,7 @@ func (cl *cluster) apply(ev string) {
 		}
 		dataBefore := rn.View().Data
 		cl.tick(i, f[0] == "TickF")
+		cl.killFold = false
 		var chainAfter []string
 		if rep := rn.srv.Replica(); rep != nil {
 			chainAfter, _ = rep.Chain()
